@@ -75,7 +75,10 @@ def evaluate(seed, checks, skip_tests, tier):
             t0 = time.time()
             r = sh([os.path.join(HERE, "bin", "check"), c], env=env, timeout=7200)
             viol = [ln.strip() for ln in r.stdout.split("\n") if ln.startswith("  mechanism=")]
+            notes = [ln.strip()[:260] for ln in r.stdout.split("\n") if ln.startswith(("NOTE ", "INCONCLUSIVE "))]
             res["checks"][c] = {"exit": r.returncode, "wall_s": round(time.time() - t0, 1), "mechanisms": [v[:260] for v in viol[:4]]}
+            if notes:
+                res["checks"][c]["notes"] = notes[:3]
         res["caught_by"] = sorted(c for c, x in res["checks"].items() if x["exit"] == 1)
         return res
     finally:
